@@ -67,3 +67,20 @@ PROPS["C05"] = dict(
         dict(test="TestC05Maps", env={"PGO_TRACE_DIR": "@TMP/trace"}, quick=dict(checks=3000, shards=1, timeout=300), thorough=dict(checks=100000, shards=4, timeout=2400)),
     ],
 )
+
+PROPS["C12"] = dict(
+    pkg="c12", level="exploration",
+    technique="stateful property-based testing (rapid state machine): generated update/merge/gob histories over 2-5 replicas against causal-history models; semilattice laws on reachable states",
+    level_text="Generated histories of local updates, pairwise merges in any order with repeats, and gob round trips over 2-5 replicas with "
+               "replica ids of every value kind; after every step the replica's read is compared with a model computed from the exact causal "
+               "history of every operation (sum of known increments / add not observed by a known remove / latest op per element), and "
+               "commutativity, associativity, idempotence and inflation are checked on internal state read from each type's own wire image.",
+    level_note="Trusts the harness's causal-history model; LWW timestamps come from the wall clock, so writes are spaced until it advances (input precondition).",
+    rule="rapid state-machine histories (write/merge/gob/laws); non-trivial = >=3 replicas, some replica merged from >=2 others, and (set types) "
+         "an add and a remove of one element issued concurrently on two replicas; distinct by rendered history.",
+    runs=[
+        dict(test="TestC12GCounter", quick=dict(checks=6000, shards=4, timeout=300), thorough=dict(checks=600000, shards=16, timeout=2400)),
+        dict(test="TestC12AWORSet", quick=dict(checks=12000, shards=8, timeout=300), thorough=dict(checks=1200000, shards=16, timeout=2400)),
+        dict(test="TestC12LWWSet", quick=dict(checks=6000, shards=4, timeout=300), thorough=dict(checks=400000, shards=16, timeout=2400)),
+    ],
+)
